@@ -29,3 +29,65 @@ package http
 //@   on return assert refused-or-forwarded: called(net/http.Handler.ServeHTTP) != called(net/http.ResponseWriter.WriteHeader)
 //@   forbid call sts.GateKeeper.Receive label no-effect-in-the-guard
 //@   forbid call sts.GateKeeper.Prepare label no-effect-in-the-guard
+
+//@ func (*Server).handle trusted
+//@   modifies nothing
+//@ func (*Server).handleValidate trusted
+//@   modifies nothing
+//@ func normalizeRequestPath trusted
+//@   modifies nothing
+
+// every route that reaches a gatekeeper or the serve directory is registered behind the guard
+//@ func (*Server).Serve
+//@   before call (*net/http.ServeMux).Handle assert data-routes-are-guarded: arg1 == s.PathPrefix + "/data" || arg1 == s.PathPrefix + "/data-recovery" || arg1 == s.PathPrefix + "/validate" || arg1 == s.PathPrefix + "/partials" || arg1 == s.PathPrefix + "/static/" ==> called((*Server).handleValidate) && called((*Server).handle) && arg2 == lastret((*Server).handle, 0) && lastarg((*Server).handle, 1) == lastret((*Server).handleValidate, 0)
+//@   before call (*net/http.ServeMux).Handle assert routes-are-prefixed: hasprefix(arg1, s.PathPrefix + "/")
+
+// ---------------------------------------------------------------- data route: parts in header order (C13 C08 C09)
+
+//@ interface sts.GateKeeper.Receive trusted
+//@   modifies nothing
+//@ interface sts.GateKeeper.Prepare trusted
+//@   modifies nothing
+//@ interface sts.GateKeeper.Received trusted
+//@   modifies nothing
+//@ interface sts.GateKeeper.GetFileStatus trusted
+//@   modifies nothing
+//@ interface sts.PayloadDecoder.Next trusted
+//@   modifies nothing
+//@ interface sts.PayloadDecoder.GetParts trusted
+//@   modifies nothing
+
+//@ func (*Server).routeData
+//@   before call DecoderFactory assert bad-header-length-is-refused: lastret(strconv.Atoi, 1) == nil && arg0 == lastret(strconv.Atoi, 0) && !called(net/http.ResponseWriter.WriteHeader)
+//@   before call sts.GateKeeper.Prepare assert prepares-the-announced-parts: arg1 == lastret(sts.PayloadDecoder.GetParts, 0) && lastret(DecoderFactory, 1) == nil
+//@   before call sts.GateKeeper.Receive assert index-in-range: 0 <= index && index < len(parts)
+//@   before call sts.GateKeeper.Receive assert part-k-with-reader-k: arg2 == lastret(sts.PayloadDecoder.Next, 0) && !lastret(sts.PayloadDecoder.Next, 1) && arg1 == file && file.Name == parts[index].GetName() && file.Renamed == parts[index].GetRenamed() && file.Prev == parts[index].GetPrev() && file.Hash == parts[index].GetFileHash() && file.Size == parts[index].GetFileSize() && file.Time == parts[index].GetFileTime() && len(file.Parts) == 1 && file.Parts[0].Beg == lastret(sts.Binned.GetSlice, 0) && file.Parts[0].End == lastret(sts.Binned.GetSlice, 1) && lastarg(sts.Binned.GetSlice, 0) == parts[index] && file.Source == getSourceName(r)
+//@   before call net/http.ResponseWriter.WriteHeader assert complete-only-at-the-end: arg1 == 200 ==> called(sts.PayloadDecoder.Next) && lastret(sts.PayloadDecoder.Next, 1)
+//@   before call net/http.ResponseWriter.WriteHeader assert partial-answer-after-a-failed-part: arg1 == 206 ==> called(sts.GateKeeper.Receive) && lastret(sts.GateKeeper.Receive, 0) != nil && called((net/http.Header).Add) && lastarg((net/http.Header).Add, 1) == HeaderPartCount && lastarg((net/http.Header).Add, 2) == itoa(index)
+//@   loop 0 invariant 0 <= index
+//@   loop 0 backedge assert partcount-is-receive-count: index == athead(index) + 1 && called(sts.GateKeeper.Receive) && lastret(sts.GateKeeper.Receive, 0) == nil && ncalls(sts.GateKeeper.Receive) == 1
+
+//@ func (*Server).routeDataRecovery
+//@   before call (net/http.Header).Add assert reports-the-recorded-prefix: arg1 == HeaderPartCount && arg2 == itoa(lastret(sts.GateKeeper.Received, 0)) && lastarg(sts.GateKeeper.Received, 1) == lastret(sts.PayloadDecoder.GetParts, 0)
+//@   forbid call sts.GateKeeper.Receive label recovery-receives-nothing
+//@   forbid call sts.GateKeeper.Prepare label recovery-receives-nothing
+
+//@ func (*confirmable).GetName inline
+//@ func (*confirmable).GetStarted inline
+//@ func (*Server).routeValidate
+//@   before mapupdate respMap assert answers-are-gatekeeper-verdicts: arg1 == f.Name && arg2 == lastret(sts.GateKeeper.GetFileStatus, 0) && lastarg(sts.GateKeeper.GetFileStatus, 1) == f.Name
+
+// ---------------------------------------------------------------- verdict codes of the poll answer (C02)
+
+//@ func (*confirmed).NotFound
+//@   ensures code-map: result == (c.code == sts.ConfirmNone)
+//@   modifies nothing
+//@ func (*confirmed).Waiting
+//@   ensures code-map: result == (c.code == sts.ConfirmWaiting)
+//@   modifies nothing
+//@ func (*confirmed).Failed
+//@   ensures code-map: result == (c.code == sts.ConfirmFailed)
+//@   modifies nothing
+//@ func (*confirmed).Received
+//@   ensures code-map: result == (c.code == sts.ConfirmPassed)
+//@   modifies nothing
